@@ -79,12 +79,12 @@ func (e *Exec) enterLoop(li *loopInfo, phiVals map[ssa.Value]Val, st *State) {
 				// every write in the loop targets an object allocated by this activation: objects that existed at
 				// function entry are untouched
 				r := BoundVar("r", SInt)
-				e.assume(Implies(e.curReach, Forall([]*Term{r}, Implies(Lt(RootOf(r), e.root().entry.next), Eq(Select(nv, r), Select(st.Get(n, srt), r))), []*Term{Select(nv, r)})))
+				e.assume(Implies(e.guard(), Forall([]*Term{r}, Implies(Lt(RootOf(r), e.root().entry.next), Eq(Select(nv, r), Select(st.Get(n, srt), r))), []*Term{Select(nv, r)})))
 			}
 		}
 		if li.modset["next"] {
 			nn := Fresh("lnext$"+li.ord, SInt)
-			e.assume(Implies(e.curReach, Ge(nn, st.next)))
+			e.assume(Implies(e.guard(), Ge(nn, st.next)))
 			hst.next = nn
 		}
 	}
@@ -118,7 +118,7 @@ func (e *Exec) enterLoop(li *loopInfo, phiVals map[ssa.Value]Val, st *State) {
 		env := e.loopEnv(li, li.hdrVals, hst, li.iterHdr, false)
 		for _, inv := range spec.Invariants {
 			t := e.evalContractBool(inv.Expr, env, "invariant")
-			e.assume(Implies(e.curReach, t))
+			e.assume(Implies(e.guard(), t))
 		}
 	}
 }
@@ -157,7 +157,7 @@ func (e *Exec) autoInvariants(li *loopInfo) {
 					if b, ok := in2.(*ssa.BinOp); ok && b.Op.String() == "<" {
 						if ln, ok := e.vals[b.Y]; ok {
 							if lt, ok := ln.(*Term); ok {
-								e.assume(Implies(e.curReach, And(Le(IntLit(-1), idx), Lt(idx, lt))))
+								e.assume(Implies(e.guard(), And(Le(IntLit(-1), idx), Lt(idx, lt))))
 							}
 						}
 					}
@@ -192,9 +192,18 @@ func (e *Exec) checkInvariants(li *loopInfo, from *ssa.BasicBlock, cond *Term) {
 		iters[rng] = e.iters[rng].visited
 	}
 	env := e.loopEnv(li, vals, e.curState, iters, false)
+	// the invariants are proved as a conjunction: clause k may use clauses 1..k-1 at the same program point
+	var earlier []*Term
 	for i, inv := range spec.Invariants {
 		t := e.evalContractBool(inv.Expr, env, "invariant")
+		before := len(e.root().obls)
 		e.oblige("inv-preserved", "loop"+li.ord+":"+labelOr(inv.Label, i), t, e.propsOf(inv), inv.Src)
+		r := e.root()
+		if len(r.obls) > before {
+			o := r.obls[len(r.obls)-1]
+			o.Extra = append(o.Extra, earlier...)
+			earlier = append(earlier, o.Goal)
+		}
 	}
 	e.curReach, e.curState = saveReach, saveState
 }
